@@ -110,16 +110,27 @@ def check(case, stats):
         check_cache(case, stats)
 
 
+WARM = "addi x5, x0, 1\naddi x6, x0, 2\nlui x8, 4\nsw x5, 0(x8)\nlw x6, 0(x8)\naddi x7, x0, 3\nsw x6, 64(x8)\naddi x9, x0, 4"
+
+
 def check_cache(case, stats):
     """Per step: delta(cycles) == 1 + d_pen * delta(d_misses) + i_pen * delta(i_misses), in either mode; and in
     five-stage mode the step in which each instruction retires still follows the schedule (penalties are counted
     cycles, not extra steps)."""
     from architecture_simulator.simulation.runtime_errors import InstructionExecutionException
-    if case["mode"] == "five":
+    if case["mode"] == "five" and not case.get("reuse"):
         def V(clause, c, detail):
             return Violation("cached-" + clause, c, detail)
         check_schedule(case, stats, True, V, case.get("dcache"), case.get("icache"))
     sim = rvdrive.new_sim(case["mode"], True, case.get("dcache"), case.get("icache"))
+    if case.get("reuse"):
+        # the simulation object has already run (part of) another program and is loaded again: the accounting identity
+        # is model-free and holds for every step of every simulation, whatever it did before
+        sim.load_program(WARM)
+        for _ in range(case["reuse"]):
+            if not sim.is_done():
+                sim.step()
+        sim.load_program("nop\nnop")
     rvdrive.load(sim, case["prog"], case.get("regs"), case.get("mem"))
     dpen = (case.get("dcache") or {}).get("pen", 0)
     ipen = (case.get("icache") or {}).get("pen", 0)
@@ -150,6 +161,8 @@ def check_cache(case, stats):
         pen_misses += (d1 - d0) * (dpen > 0) + (i1 - i0) * (ipen > 0)
         total_misses += (d1 - d0) + (i1 - i0)
     tags = {"kind:cache", "mode:" + case["mode"]}
+    if case.get("reuse"):
+        tags.add("reused-simulation")
     if case.get("dcache"):
         tags.add("dcache:" + case["dcache"]["type"])
     if case.get("icache"):
@@ -197,11 +210,11 @@ def indep_case(draw):
 
 def cache_case():
     return st.builds(
-        lambda c, d, i, m: dict(c, kind="cache", dcache=d, icache=i, mode=m, max=250),
+        lambda c, d, i, m, r: dict(c, kind="cache", dcache=d, icache=i, mode=m, max=250, reuse=r),
         st.one_of(rvprog.program_case(14, aligned_only=True), rvprog.mem_heavy_case(18)),
         cachecfg.maybe(st.one_of(cachecfg.cache_config(), cachecfg.small_cache_config())),
         cachecfg.maybe(st.one_of(cachecfg.cache_config(types=("wb",)), cachecfg.small_cache_config())),
-        st.sampled_from(["single", "five"]))
+        st.sampled_from(["single", "five"]), st.sampled_from([0, 0, 0, 1, 3, 6, 12]))
 
 
 def prog_case(max_len, max_steps):
